@@ -110,7 +110,3 @@ def smoothed_l1_gradient(D, x, loc, scale, beta):
     t = D @ (x - loc)
     return D.T @ (t / np.sqrt(t ** 2 + beta)) / scale
 
-
-def psd_sqrt_columns(B):
-    """B B^T."""
-    return B @ B.T
